@@ -30,6 +30,8 @@ Decides:
                         positional: unrestricted; command: the given name is the first long name ..).
  R registry wiring  run_inner feeds the tokenizer the short names of the parser's OWN raw meta (not the help-normalised one, which drops all but the first
                         sibling command) - shared with C02.
+ C flag consumption / D derive names  a flag spelled on the line is taken from the line whatever its environment variable says (shared with C18); the
+                        naming members of the derive family agree with their documented equivalents (one character -> short name, words, raw identifiers; C17).
 Does not decide: that the composition accepts exactly the declared language and attributes values correctly
 for every shape x vector (language equivalence over run-time data)."""
 from core import *
@@ -40,7 +42,7 @@ from dataflow import *
 LEVEL = 'other'
 EXPLANATION = __doc__
 ASSUMPTIONS = ['user closures and FromStr impls are total and pure', 'the witness forms of construct! cover the documented forms; other call shapes expand through the same macro arms']
-FLOORS = {'C.consumers': 22, 'P.primitives': 13, 'W.construct': 70, 'K3.consult': 120, 'K5.loops': 11, 'O.leftover': 2, 'F.parsecon': 3, 'R.registry': 14, 'L.lossless': 2, 'B.boundaries': 3, 'T.separator': 2, 'N.name-once': 2, 'A.accept-sets': 8, 'B.builders': 50}
+FLOORS = {'D.derive-names': 6, 'C.consumers': 22, 'P.primitives': 13, 'W.construct': 70, 'K3.consult': 120, 'K5.loops': 11, 'O.leftover': 2, 'F.parsecon': 3, 'R.registry': 14, 'L.lossless': 2, 'B.boundaries': 3, 'T.separator': 2, 'N.name-once': 2, 'A.accept-sets': 8, 'B.builders': 50}
 
 def run(ctx):
     cfgs = ['none', 'all'] if ctx.tier == 'quick' else ['none', 'all', 'ac', 'doc', 'bat']
